@@ -199,8 +199,8 @@ def contradicts_invariants(facts, ts):
     for a, v in facts.items():
         if not isinstance(a, tuple):
             continue
-        if a[0] == "==" and a[1] == a[2] and v is False:
-            return "x == x cannot be false (len(buffer) = period)"
+        if a[0] == "==" and a[1] == a[2] == pp and v is False:
+            return "len(buffer) == period cannot be false"
         if a[0] == "<" and a[1] in curs and a[2] == pp and v is False:
             return "cursor < period"
         if a[0] == "<=" and a[1] == pp and a[2] in curs and v is True:
@@ -265,8 +265,13 @@ def apply(F, S, extra=None):
     evaluated = 0
     loops = 0
     # P1 + slice-index part of P2: evaluate every hand-written, non-constructor function
+    inds_ = set(F.indicators())
+
+    def is_ctor(f_):
+        """the constructor of an indicator (C11's subject); a helper that merely happens to be called `new` is not exempt"""
+        return f_.name == "new" and not f_.d.get("impl_trait") and f_.self_struct in inds_
     for f in F.fns:
-        if f.name == "new" or f.kind == "Closure":
+        if is_ctor(f) or f.kind == "Closure":
             continue
         if f.derived and not any(b["term"]["k"] == "assert" for b in f.blocks):
             continue  # derived code without checked operations: its callees are classified under P2
@@ -328,7 +333,7 @@ def apply(F, S, extra=None):
                 S.bad(rid, "undischarged", sym, "%s in %s can fail: %s" % ("Assert " + site["kind"] if site["what"] == "assert" else "slice range", site["fn"], why), loc(site["span"]))
     # every Assert terminator of the crate outside `new` must have been visited by an evaluation (or sits in dead code)
     for f in F.fns:
-        if f.name == "new" and not f.derived:
+        if is_ctor(f) and not f.derived:
             continue
         for b in f.blocks:
             t = b["term"]
@@ -339,7 +344,7 @@ def apply(F, S, extra=None):
                 if not hit:
                     S.bad("P1", "unvisited-assert", "%s:%s" % (f.label, t["msg"]["kind"]), "Assert %s in %s was not reached by the evaluation (derived or infeasible code): cannot discharge" % (t["msg"]["kind"], f.label), loc(t["span"]))
     # P2: panicking / unknown callees reachable from anything but constructors
-    roots = [f for f in F.fns if f.name != "new" and f.kind != "Closure"]
+    roots = [f for f in F.fns if not is_ctor(f)]   # closures included: a panic inside a closure is a panic of the function that calls it
     defaults_ok = set()
     for f in F.fns:
         if f.name == "default" and f.trait_short == "Default" and not f.derived:
